@@ -93,6 +93,40 @@ def check_monomial(chk, v, name, coefs, minus_one):
     N = P(src, "N")
     A = sym.sym(a)
     facts = [A, sym.sub(sym.sub(sym.mul(I(2), N), I(1)), A), sym.sub(N, I(1))]       # 0 <= a <= 2N-1, N >= 1 (documented contract)
+    # a shortcut for the exponent 0 (`if (a == 0) { copy; return; }`): that alternative is decided on its own -- X^0 is the identity,
+    # X^0 - 1 is zero -- and the remaining statements are analysed under a >= 1
+    is_eq0 = lambda g: g in (sym.binop("==", A, ZERO), ("op", "==", A, ZERO), ("un", "!", ("op", "!=", A, ZERO)))
+    is_ne0 = lambda g: g in (sym.binop("!=", A, ZERO), ("op", "!=", A, ZERO), ("un", "!", ("op", "==", A, ZERO)), sym.unop("!", sym.binop("==", A, ZERO)))
+    eq0 = [p for p in stores if any(is_eq0(g) for g in p["guards"])]
+    if eq0 and all(len([g for g in p["guards"] if not is_eq0(g)]) == 0 and len(p["loops"]) == 1 for p in eq0) and \
+            all(any(is_ne0(g) for g in p["guards"]) for p in stores if p not in eq0):
+        from sa import coverage
+        Nn = sym.sym("N")
+        terms0, bad0 = [], None
+        for p in eq0:
+            lp = p["loops"][0]
+            lpn = dict(lp, lo=sym.rewrite(lp["lo"], {N: Nn, P(res, "N"): Nn}), hi=sym.rewrite(lp["hi"], {N: Nn, P(res, "N"): Nn}))
+            if p["lv"][0] != "idx" or p["lv"][1] != P(res, coefs) or p["op"] != "=":
+                chk.broken("%s: statement at line %s under a == 0 is not an assignment to the result" % (name, p["line"]))
+            ix = p["lv"][2]
+            want0 = ZERO if minus_one else sym.idx(P(src, coefs), ix)
+            if sym.subst(p["val"], {A: ZERO}) != want0:
+                bad0 = "for a = 0 the statement at line %s assigns %s to coefficient %s, %s is %s" % (
+                    p["line"], sym.show(p["val"])[:60], sym.show(ix), "(X^0 - 1) * source" if minus_one else "X^0 * source",
+                    "0" if minus_one else "the source coefficient itself")
+            terms0.append((lpn, ix, 1))
+        if bad0 is None:
+            st0, det0 = coverage.cover_1d(terms0, Nn)
+            if st0 == "unknown":
+                chk.broken("%s: statements under a == 0: %s" % (name, det0))
+            if st0 == "refuted":
+                bad0 = "for a = 0 the result is not written everywhere: %s" % det0
+        if bad0:
+            chk.refuted("R1", key, where=f.where, detail=bad0, variant=v.name)
+            chk.vcount(v.name, "R1.monomial_functions")
+            return
+        stores = [dict(p, guards=[g for g in p["guards"] if not is_ne0(g)]) for p in stores if p not in eq0]
+        facts = facts + [sym.sub(A, I(1))]
     ok, detail, infos = pam.check_map_cases(stores, P(res, coefs), P(src, coefs), N, 1, sym.neg(A), facts,
                                             extra_terms=[(-1, "same")] if minus_one else [], want_op="=")
     if ok is None:
